@@ -92,13 +92,14 @@ func (cl *Cluster) craftTimeout(from *Stack, view hotstuff.View, kind string, si
 	return tm
 }
 
-func c08Prop(c c08Case) common.Result {
+func c08Prop(c c08Case) (verdict common.Result) {
 	cfg := Config{N: c.N, Rules: c.Rules, Crypto: c.Crypto, Batch: 1, Leaders: []int{2}} // the subject never leads
 	cl, err := New(cfg)
 	if err != nil {
 		return common.Fail("harness", "cluster: %v", err)
 	}
 	defer cl.Close()
+	defer func() { verdict = cl.Verdict("C08", verdict) }()
 	sub := cl.Stacks[0]
 	aggregate := c.Rules == rules.NameFastHotStuff
 	q := cl.Quorum()
